@@ -74,3 +74,60 @@ claim("C14", "proof",
       "dumped NFA over exhaustive short haystacks and all offsets, with an exact ledger. PikeVM/lazy DFA/one-pass are not modelled in Coq.",
       NOTE_COMMON + " Extraction: ExtrOcamlBasic + ExtrOcamlNatInt.",
       "Coq proof (backtracker = reference) + extracted reference vs every engine entry point on dumped NFAs", "9/C14")
+claim("C10", "proof",
+      "Coq theorems: the leftmost-longest reference (exhaustive DFS) returns the leftmost start and the maximal end among accepting paths "
+      "(find_at_longest_spec, match_ends_spec); the bounded backtracker in longest mode equals it from any reusable state; the mode flag "
+      "belongs to one value and is overwritten on every acquisition of a pooled search state. Per run: Longest(), Copy()+Longest(), "
+      "CompilePOSIX vs regexp in the same mode over 11 APIs, original of a copy stays leftmost-first; fixed corpus + exact ledger.",
+      NOTE_COMMON + " Longest-mode sub-match choice is compared with regexp only.",
+      "Coq proof (leftmost-longest reference spec, mode model) + differential vs regexp in longest/POSIX mode", "9/C10")
+claim("C11", "proof",
+      "Coq theorems: all enumeration views are derived from one single-match function by loops equal to regexp's allMatches, hence agree "
+      "for every haystack, n, dst. Open by design: that the meta engine's five per-strategy dispatchers are projections of one function; "
+      "checked oracle-free per run (~35 relations between methods of one compiled value incl. every offset, haystacks to 3 KiB), fixed "
+      "corpus + exact ledger.",
+      NOTE_COMMON, "Coq proof (views derived from one single-match function) + oracle-free relation checking", "9/C11")
+claim("C12", "proof",
+      "Coq theorems (Gate.v): Validate accepts exactly the documented ranges; prefilter candidate loops return the reference under the "
+      "hypotheses C16/C17/C14, so prefilter on/off and limits only select a branch (config_irrelevant_model). Per run: 23 valid "
+      "configurations vs default over 5 APIs, default vs the extracted Coq reference on the dumped NFA, invalid configurations rejected, "
+      "GODEBUG cpu masks in child processes; fixed corpus + exact ledger.",
+      NOTE_COMMON + " Extraction: ExtrOcamlBasic + ExtrOcamlNatInt.",
+      "Coq proof (candidate-loop soundness, config model) + configuration-lattice differential incl. NFA reference", "9/C12")
+claim("C15", "proof",
+      "Coq: Go's utf8 encode/decode model with round-trip theorems; certified checker class_check with soundness for ALL byte strings of "
+      "all lengths (acceptance = exactly one decoded rune in the class, invalid byte = U+FFFD width 1), evaluated by the kernel on "
+      "automata dumped from the current compiler (classes, negations, boundary classes, literals, fold-case literals, dot; 3 modes); "
+      "every automaton additionally swept on the Go side over all code points and all byte strings of length <= 2 against regexp, with "
+      "witnesses in an exact ledger. Range splitter modelled for 1-/2-byte (proved); 3-byte not modelled.",
+      NOTE_COMMON, "Certified checker in Coq (vm_compute) on regenerated automata + exhaustive code-point sweep vs regexp", "9/C15")
+claim("C05", "proof",
+      "Coq theorems: step-count bounds for the PikeVM set simulation (<= 2*|N|*(len+1)), the bounded backtracker (per-start visit bound; "
+      "SearchAt's per-start generation bump refuted as quadratic), the lazy DFA (one step per byte + bounded determinisations + one "
+      "fallback), the reverse-suffix loop with the minStart barrier (<= 2*len); the composite searcher's recursion refuted as superlinear. "
+      "Runtime observed: deterministic coverage work counters per API call over pattern families per strategy and doubling sizes. "
+      "PARTIAL: real time, GC, assembly not modelled; the constant K over all patterns rests on measurement.",
+      NOTE_COMMON + " Work proxy = executed basic blocks x statements of library code (go tool covdata).",
+      "Coq proof (step-count bounds on engine models) + deterministic work-counter measurement", "9/C05")
+claim("C07", "proof",
+      "Coq theorems: well-formedness checkers with specifications; the reference search's spans/captures and the specification loop's "
+      "enumerations are well-formed; in-bounds access logs for the reference step function, SWAR primitives and the backtracker table; "
+      "modelled loops never run out of fuel. Runtime observed: all APIs on guard-page/read-only haystacks in child processes with hang "
+      "detection, hostile patterns, aliasing and immutability checks; observed results re-checked by the Coq predicates. PARTIAL: "
+      "memory safety of assembly and termination of the real code are observed only.",
+      NOTE_COMMON, "Coq proof (well-formedness, in-bounds access logs) + guard-page/timeout worker processes", "9/C07")
+claim("C19", "proof",
+      "Coq theorems: for each directly modelled fast path (char-class searcher, composite searcher, composite DFA with minimum 1, branch "
+      "dispatcher, anchored-literal matcher, first-byte filter, digit-run skipping) the applicability predicate as the Go code decides it "
+      "implies exactness against the backtracking reference for EVERY accepted pattern, haystack and offset; original predicates "
+      "refuted. Per run: predicates and construction data dumped from the current code are compared with the models inside Coq; the "
+      "reference is validated against regexp; searchers driven directly on exhaustive short haystacks; reverse-* searchers are "
+      "differential only (exact ledger).",
+      NOTE_COMMON + " Reverse-anchored/suffix/suffix-set/inner/multiline searchers are not modelled.",
+      "Coq proof (predicate => exactness) + dumped predicate/table correspondence + differential vs regexp", "9/C19")
+claim("C20", "proof",
+      "Coq theorems: lazy DFA cache accounting over arbitrary operation sequences (memory < capacity + one state + reserved slot + lazily "
+      "attached acceleration bytes; clear count bounded), backtracker visited table <= cap over any history. Per run: MemoryUsage/Size/"
+      "ClearCount after every search on real caches vs bound and model (inside Coq); heap per Regex flat from 100 to 10000 searches; "
+      "AllocsPerRun == 0 for the documented calls. PARTIAL: Go's allocator observed, not modelled.",
+      NOTE_COMMON, "Coq proof (accounting invariant over op sequences) + MemoryUsage/MemStats/AllocsPerRun observation", "9/C20")
